@@ -50,6 +50,9 @@ type WActor struct {
 	Outbox    []WAct `json:"outbox"`
 	NoOutbox  bool   `json:"no_outbox,omitempty"`
 	OutboxPer int    `json:"outbox_per,omitempty"`
+	// OutboxLoop (paged outboxes, stress runs only): the last page names a successor that has been seen before -
+	// "self" (itself) or "first" (the first page): an endless timeline, as some servers produce
+	OutboxLoop string `json:"outbox_loop,omitempty"`
 	Icon      bool   `json:"icon,omitempty"`
 	Banner    bool   `json:"banner,omitempty"`
 	Links     []WLink `json:"links,omitempty"`
@@ -119,7 +122,7 @@ func js(v any) string {
 	return string(b)
 }
 
-func paged(kind string, idURL string, items []any, per int, pageURL func(n int) string, set func(url, doc string)) map[string]any {
+func paged(kind string, idURL string, items []any, per int, pageURL func(n int) string, set func(url, doc string), loop ...string) map[string]any {
 	coll := map[string]any{"id": idURL, "type": "OrderedCollection", "totalItems": len(items)}
 	if per <= 0 || len(items) == 0 {
 		coll["orderedItems"] = items
@@ -134,6 +137,10 @@ func paged(kind string, idURL string, items []any, per int, pageURL func(n int) 
 		page := map[string]any{"id": pageURL(n), "type": "OrderedCollectionPage", "orderedItems": items[n*per : end], "partOf": idURL}
 		if n+1 < npages {
 			page["next"] = pageURL(n + 1)
+		} else if len(loop) > 0 && loop[0] == "self" {
+			page["next"] = pageURL(n)
+		} else if len(loop) > 0 && loop[0] == "first" {
+			page["next"] = pageURL(0)
 		}
 		set(pageURL(n), js(page))
 	}
@@ -231,7 +238,7 @@ func (w *World) Install(sim *vsim.Sim, prefix string) {
 				items = append(items, u)
 			}
 			outboxURL := w.ActorURL(prefix, j) + "/outbox"
-			coll := paged("outbox", outboxURL, items, a.OutboxPer, func(n int) string { return fmt.Sprintf("%s/page%d", outboxURL, n) }, set)
+			coll := paged("outbox", outboxURL, items, a.OutboxPer, func(n int) string { return fmt.Sprintf("%s/page%d", outboxURL, n) }, set, a.OutboxLoop)
 			if !(w.Hostile > 0 && (w.Hostile+j)%3 == 0) {
 				set(outboxURL, js(coll)) // in some hostile worlds the outbox itself answers with hostile bytes
 			}
